@@ -143,8 +143,6 @@ func genDispatch(tier string, seed uint64, idx int) interface{} {
 	}
 	// the server delivers around those points
 	ns := 3 + r.Intn(12)
-	ids := []uint16{7, 8, 9, 400}
-	open := map[uint16]SOp{}
 	for i := 0; i < ns; i++ {
 		seq++
 		t := topicsPool[r.Intn(len(topicsPool))]
@@ -153,12 +151,9 @@ func genDispatch(tier string, seed uint64, idx int) interface{} {
 		}
 		op := SOp{K: "pub", Topic: t, QoS: byte(r.Intn(3)), Size: 8 + r.Intn(100), Seq: seq}
 		if op.QoS > 0 {
-			op.ID = ids[r.Intn(len(ids))]
-		}
-		if op.QoS == 2 {
-			if _, busy := open[op.ID]; busy {
-				op.QoS, op.ID = 0, 0
-			}
+			// a conforming sender does not reuse an identifier before the
+			// exchange is complete; the script cannot wait, so it never reuses
+			op.ID = uint16(1000 + seq)
 		}
 		x.sc.Srv = append(x.sc.Srv, op)
 		if op.QoS == 2 && r.Bool(1, 3) {
@@ -221,9 +216,11 @@ func genReceiver(tier string, seed uint64, idx int) interface{} {
 	x.sc.AckPolicy = "immediate"
 	x.sc.Apps = [][]AOp{{{K: "sub", Filters: []string{"#"}, QoSs: []byte{2}, CB: 1}, {K: "barrier"}, {K: "barrier"}}}
 	x.sc.Srv = append(x.sc.Srv, SOp{K: "barrier"})
+	nextID := 1 + r.Intn(60000)
 	ids := make([]uint16, 1+r.Intn(4))
+	fresh := func() uint16 { nextID++; return uint16(nextID) }
 	for i := range ids {
-		ids[i] = uint16(1 + r.Intn(65535))
+		ids[i] = fresh()
 	}
 	var order []uint16
 	open := map[uint16]SOp{}
@@ -250,6 +247,11 @@ func genReceiver(tier string, seed uint64, idx int) interface{} {
 				d.Dup = true
 				x.sc.Srv = append(x.sc.Srv, d)
 			}
+			for k := range ids {
+				if ids[k] == id {
+					ids[k] = fresh()
+				}
+			}
 		case k < 6 && !isOpen:
 			seq++
 			op := SOp{K: "pub", Topic: topicsPool[r.Intn(len(topicsPool))], QoS: 2, ID: id, Size: x.size(), Seq: seq, NoRel: true}
@@ -267,6 +269,12 @@ func genReceiver(tier string, seed uint64, idx int) interface{} {
 			}
 			delete(open, id)
 			order = order[1:]
+			// the identifier is not reused: the script cannot wait for the PUBCOMP
+			for k := range ids {
+				if ids[k] == id {
+					ids[k] = fresh()
+				}
+			}
 		default:
 			if !isOpen && r.Bool(1, 2) {
 				x.sc.Srv = append(x.sc.Srv, SOp{K: "pubrel", ID: id}) // not in flight
